@@ -536,6 +536,18 @@ func (s *handler) handle(ctx context.Context, req request, w func(func(io.Writer
 		if err := json.NewEncoder(w).Encode(resp); err != nil {
 			log.Error(err)
 			stats.Record(ctx, metrics.RPCResponseError.M(1))
+
+			// the encoder writes nothing unless it could encode the whole value, so
+			// the request is still unanswered: say why instead of leaving the caller
+			// waiting for a response that will never come
+			resp.Result = nil
+			resp.Error = &JSONRPCError{
+				Code:    1,
+				Message: fmt.Sprintf("marshaling response of '%s' failed: %s", req.Method, err),
+			}
+			if err := json.NewEncoder(w).Encode(resp); err != nil {
+				log.Error(err)
+			}
 			return
 		}
 	})
